@@ -157,7 +157,7 @@ func runHarness(h HarnessDef, tier string, seed int64, replay string) HarnessRun
 	ovData, _ := json.Marshal(ov)
 	ovFile := filepath.Join(tmp, "ov.json")
 	os.WriteFile(ovFile, ovData, 0o644)
-	args := []string{"test", "-overlay", ovFile, "-vet=off", "-count=1", "-timeout", "300s", "-run", "^" + h.Test + "$", "./" + h.Pkg}
+	args := []string{"test", "-v", "-overlay", ovFile, "-vet=off", "-count=1", "-timeout", "300s", "-run", "^" + h.Test + "$", "./" + h.Pkg}
 	if h.Race {
 		args = append(args[:1], append([]string{"-race"}, args[1:]...)...)
 	}
@@ -194,6 +194,11 @@ func runHarness(h HarnessDef, tier string, seed int64, replay string) HarnessRun
 		} else {
 			hr.BuildErr = true
 		}
+	}
+	if err == nil && !hr.Failed && hr.Cases == 0 {
+		// vacuity guard: a bounded stand-in that explored nothing must not read as a pass
+		hr.Failed = true
+		hr.FailLine = "the bounded harness explored zero cases (no GOVC-CASES line): it recognises nothing in what the code now produces"
 	}
 	return hr
 }
